@@ -8,7 +8,7 @@ CLAIMED['C02'] = dict(
     text='Proof (per function, modular): every loader function and read_inline/crossline/zslice/subvolume/volume/subplane/get_trace return exactly '
          'the slice of the spec-defined volume V they denote, for all cube shapes and arguments, per valid (rate, blockshape) setting '
          '(quick: representative settings; thorough: all 401). Diagonals, coordinate lookups, accessors, xarray: not yet under contract.',
-    note='AX-ZFP-DEC, AX-NP-INDEX, AX-FILE, AX-POOL, AX-LRU assumed; reader object state as established by __init__ assumed (mk_reader); ENGINE pyvc + z3/cvc5 trusted')
+    note='AX-ZFP-DEC, AX-NP-INDEX, AX-FILE, AX-POOL, AX-LRU assumed; reader object state: SgzReader.__init__ is under contract for the file-handle route (ReaderInit: state = mk_reader state for conforming files); ENGINE pyvc + z3/cvc5 trusted')
 CLAIMED['C07'] = dict(
     text='Proof: ghost read log of every loader function / read method under contract equals exactly the ranges the property allows '
          '(group blocks, one unit per column, one block per tile, blocks of the box), disjoint, inside the data section; none with preload; '
@@ -69,3 +69,7 @@ CLAIMED['C04'] = dict(
          'stride 512*ceil(4n/512); NumPy route any integer dtype + default inline/crossline arrays), reader table parse + offsets (get_header_dict), gen_trace_header, SEG-Y file header copy. '
          'Unbounded in trace count and header values; the loops over the 89 header words are unrolled on tables with few non-trivial entries.',
     note='AX-SEGYIO-ENUM/-R, AX-NP-ALL; composition by modularity; found and fixed D3 (512 padding), D4 (int64 arrays), D34 (array order)')
+CLAIMED['C09'] = dict(
+    text='Proof per function of the 2-D chain: blockshape validation, header words, trace-group capture (unrolled per group extent 4/8/16[/32]), producer layout agreement (spec_off2) and hash, '
+         'reader construction (2-D branch incl. sample axis), 2-D loaders, read_subplane/get_trace windows, refusal of volume-style reads, gen_trace_header -- all trace/sample counts, per valid setting.',
+    note='2-D detection in detect_geometry and the accessors of seismic_zfp.open not under contract; AX-ZFP 2-D, AX-SEGYIO-R; found and fixed D10 (2-D hash covered padding traces)')
